@@ -418,6 +418,13 @@ func cmdCheck(args []string) {
 		counted++
 		viols = append(viols, violation{&oblSummary{Name: site, Kind: "vacuity", Status: "refuted", Desc: "the postcondition assumed for this call contradicts what is known at the call site (the state before it is satisfiable, the state after it is not): everything after the call would be proved vacuously; the contract of the callee or the model of its effects is wrong", Contract: true}, "refuted"})
 	}
+	// a precondition (or loop invariant) that no state satisfies makes everything under it vacuous
+	for n, st := range covers {
+		if st == "unsat" && (strings.Contains(n, "/cover:entry") || strings.Contains(n, "/cover:L")) {
+			counted++
+			viols = append(viols, violation{&oblSummary{Name: strings.Replace(n, "/cover:", "/satisfiable:", 1), Kind: "vacuity", Status: "refuted", Desc: "no state satisfies the precondition (cover:entry) or the loop invariant at the loop head (cover:L<n>) of this function: its obligations would hold vacuously", Contract: true}, "refuted"})
+		}
+	}
 	for _, site := range vacSuspects {
 		fmt.Println("VACUITY-SUSPECT:", site, "(post-state unsatisfiable, pre-state not decided within the probe time)")
 	}
